@@ -5,6 +5,9 @@
    (20 systems x 2 flavors x shapes up to 3-D x index kinds), see evidence. *)
 From Coq Require Import List Arith.
 From VP Require Import Layout.
+From Coq Require Import List Bool.
+From VP Require ObjModel ObjNames NbModel NpApi NpChecks.
+Import List.ListNotations.
 Import ListNotations.
 
 Theorem C19_elementwise_keeps_shape_and_acts_on_elements : forall (A B : Type) (f : A -> B) (a : narr A),
@@ -26,3 +29,11 @@ Proof. intros. split; [apply azip_element | apply abroadcast_element]. Qed.
 (* obj -> array -> [0] = obj, in the model: a one-element array of an object returns that object *)
 Example C19_roundtrip_model : forall (A : Type) (v : A), nth_error (data {| shape := [1]; data := [v] |}) 0 = Some v.
 Proof. reflexivity. Qed.
+
+(* the REAL NumPy backend executed symbolically (T6): a[0] is the object vector holding exactly the element's stored coordinates, in
+   the array's coordinate system and flavor; a["name"], for every generic name and every momentum synonym of a stored coordinate, is
+   the stored column (what the object getter returns), and is rejected exactly where the object has no such attribute — all 20
+   systems x 2 flavors *)
+Theorem C19_numpy_index_and_field_access :
+  VP.NpChecks.np_agree_on [VP.ObjNames.N_index0; VP.ObjNames.N_field_x; VP.ObjNames.N_field_y; VP.ObjNames.N_field_rho; VP.ObjNames.N_field_phi; VP.ObjNames.N_field_z; VP.ObjNames.N_field_theta; VP.ObjNames.N_field_eta; VP.ObjNames.N_field_t; VP.ObjNames.N_field_tau; VP.ObjNames.N_field_px; VP.ObjNames.N_field_py; VP.ObjNames.N_field_pt; VP.ObjNames.N_field_pz; VP.ObjNames.N_field_E; VP.ObjNames.N_field_e; VP.ObjNames.N_field_energy; VP.ObjNames.N_field_M; VP.ObjNames.N_field_m; VP.ObjNames.N_field_mass]%list = true.
+Proof. vm_cast_no_check (eq_refl true). Qed.
